@@ -212,6 +212,7 @@ def run(ctx):
     # ---------------- R1.1b checked lemma behind the flat_map audit entries (shared with C12)
     import lemmas
     lemmas.flat_map_lockstep(fx, res, "R1.1")
+    lemmas.build_subcommand_name_exists(fx, res, "R1.1")
     # ---------------- R1.4b worklist loops terminate
     GATED = {"clap_builder::builder::command::Command::unroll_args_in_group": "group members are argument ids (assert_app)"}
     nwl = 0
